@@ -101,6 +101,7 @@ Definition tfdf_unpack (raw : bytes) (truncated : bool) (exact_len : Z) (ft : op
   if (match ft with Some f => negb (verify_frame_type r f) | None => false end)
   then Err EInvalidConstrRules else
   do ps <- (if should_have_fhp r truncated ft then
+              if (len raw <? 3) || (exact_len <? 3) then Err EInvalidLen else
               do r1 <- py_get raw 1; do r2 <- py_get raw 2;
               Ok (Some (Z.lor (Z.shiftl r1 8) r2), 3)
             else Ok (None, 1));
@@ -200,7 +201,8 @@ Definition frame_unpack (raw : bytes) (ft : ftype) (p : fprops) : res frame :=
   do ht <- determine_header_type raw;
   do h <- (if ht =? HT_TRUNCATED then
              match ft with
-             | FtVariable => do b <- thdr_unpack raw USLP_VERSION_NUMBER; Ok (HTrunc b)
+             | FtVariable => if p_fixed p then Err EValue else   (* not a VarFrameProperties *)
+                             do b <- thdr_unpack raw USLP_VERSION_NUMBER; Ok (HTrunc b)
              | FtFixed => Err ETruncatedNotAllowed
              end
            else do ph <- phdr_unpack raw USLP_VERSION_NUMBER; Ok (HPrim ph));
@@ -211,6 +213,12 @@ Definition frame_unpack (raw : bytes) (ft : ftype) (p : fprops) : res frame :=
            | FtFixed, HTrunc _ => Err EAttribute     (* unreachable *)
            | FtVariable, _ => Ok tt
            end);
+  do expected_frame_len <- (match h with
+                            | HTrunc _ => if p_fixed p then Err EAttribute   (* unreachable *)
+                                          else Ok (p_len p)
+                            | HPrim ph => Ok (frame_len ph + 1)
+                            end);
+  if len raw <? expected_frame_len then Err EInvalidLen else
   do e <- get_tfdf_len ft h (len raw) p;
   if (e <=? 0) || (header_len + e >? len raw) then Err EInvalidLen else
   do zc <- (if iz_present p then
